@@ -31,6 +31,21 @@ CHECKS = {
          "Frame::decode on contiguous strings and FrameStream::{poll_next,poll_data} over a scripted RecvStream are compared with the reference segmentation of the whole string: same frames, same DATA bytes, unknown frames skipped in full, layout errors and frames cut by end of stream in the H3_FRAME_ERROR class, never Pending when the stream has ended, for every chunking (all 2^(n-1) for short strings), with and without end of stream and with Pending interleaved. Exhaustive over all strings <= 2 bytes (3 thorough), all 1-frame strings over 14 types x varint forms x payload alphabets x declared-length deltas x every cut, 2-frame strings; random long strings (DATA up to 64 KiB) beyond.",
          "trusted: src/reference/frames.rs; type 0x41 (WebTransport pseudo frame) excluded and counted; mapping to connection error codes at the API is checked in the simnet based properties",
          "DESIGN.md section 3 C02"),
+ "C01": ("simnet",
+         "property-based testing over generated messages x application shapes x transport schedules (stateful: real h3 client and server over a deterministic simulated QUIC transport whose every choice comes from the tape); oracle = round trip at the API",
+         "The real h3 client and server exchange 1..3 generated request/response pairs (methods, absolute/authority-form targets, CONNECT+:protocol, header multisets with duplicates and obs-text, bodies 0..64 KiB in 0..12 pieces incl. empty pieces, optional/empty trailers) over a simulated transport that fragments, delays, interleaves and back-pressures under tape control (eager / tiny / random styles, send credit 0..unlimited, stream credit), with whole or split streams and three server response orders. Everything the statement lists is compared at the receiving application; any error, early end, non-clean close or pending task at quiescence is a violation.",
+         "trusted: the simulated transport is a legal QUIC stack (Quinn 0.11 semantics), the hand-written executor polls a task only after its waker fired; http crate's own types are the comparison domain",
+         "DESIGN.md section 3 C01, 2.4, 2.5"),
+ "C03": ("simnet",
+         "exhaustive enumeration of frame sequences + property-based testing of longer ones, against a reference automaton of RFC 9114 4.1 (model-based), over generated schedules",
+         "A scripted raw peer sends every sequence of length <= 4 (<= 5 thorough) over the 11-symbol frame alphabet x {FIN, RESET, left open} x 3 schedule styles to a real h3 server and, mirrored, to a real h3 client running the documented call pattern; the observed call results, body bytes, close code at the transport and driver result must equal the reference automaton (H3_FRAME_UNEXPECTED for every forbidden sequence, H3_REQUEST_INCOMPLETE without close for FIN before HEADERS on a server, prefix + RemoteTerminate for RESET, prefix + pending for open). Random sequences up to length 12 with random reset codes and schedules beyond.",
+         "trusted: reference automaton in src/props/c03.rs (model), reference frame/QPACK serializer, simulated transport",
+         "DESIGN.md section 3 C03"),
+ "C14": ("simnet",
+         "property-based testing over API programs x configurations x write-acceptance patterns; oracle = reference RFC 9114 parser over the complete per-stream byte logs + metamorphic relation (same frames as under accept-everything)",
+         "Both roles run generated API programs (1..3 exchanges, send_data incl. empty and 64 KiB buffers, trailers, finish, repeated server shutdown(n), client shutdown, handles dropped between calls, builder option classes, grease on/off) over a transport that accepts writes a few bytes at a time; every byte each h3 end wrote on every stream is parsed by the reference: legal stream types, SETTINGS first and once with legal ids, only allowed frames per stream kind, complete frames whose declared length matches, reserved ids of the 0x1f*N+0x21 form, GOAWAY ids legal for the role; the semantic frame content must equal that of the accept-everything run.",
+         "trusted: src/simnet/wire.rs + src/reference/frames.rs; write futures are never cancelled mid-frame (outside the documented patterns)",
+         "DESIGN.md section 3 C14"),
 }
 
 NOT_YET = "check not built yet in this session (see DESIGN.md section 5 for the construction order); no claim is made"
